@@ -47,22 +47,92 @@ theorem lexLe_antisymm : ∀ a b : Bytes, lexLe a b = true → lexLe b a = true 
     · subst e1; exact absurd (UInt8.lt_iff_toNat_lt.mp h2) (Nat.lt_irrefl _)
     · subst e1; rw [lexLe_antisymm as bs h1 h2]
 
-theorem Key.le_total (a b : Key) : a.le b = true ∨ b.le a = true := by
-  cases a <;> cases b <;> simp only [Key.le, decide_eq_true_eq]
+theorem Atom.le_total (a b : Atom) : a.le b = true ∨ b.le a = true := by
+  cases a <;> cases b <;> simp only [Atom.le, decide_eq_true_eq]
   · omega
   · simp
   · simp
   · exact lexLe_total _ _
 
+theorem Atom.le_trans (a b c : Atom) : a.le b = true → b.le c = true → a.le c = true := by
+  cases a <;> cases b <;> cases c <;> simp only [Atom.le, decide_eq_true_eq] <;> try simp
+  · omega
+  · exact lexLe_trans _ _ _
+
+theorem Atom.le_antisymm (a b : Atom) : a.le b = true → b.le a = true → a = b := by
+  cases a <;> cases b <;> simp only [Atom.le, decide_eq_true_eq] <;> try simp
+  · omega
+  · exact lexLe_antisymm _ _
+
+theorem lexAtoms_total : ∀ a b : List Atom, lexAtoms a b = true ∨ lexAtoms b a = true
+  | [], _ => Or.inl (by simp [lexAtoms])
+  | _ :: _, [] => Or.inr (by simp [lexAtoms])
+  | a :: as, b :: bs => by
+    by_cases h : a = b
+    · subst h
+      simp only [lexAtoms, if_true]
+      exact lexAtoms_total as bs
+    · have h' : ¬ b = a := fun e => h e.symm
+      simp only [lexAtoms, h, h', if_false]
+      exact Atom.le_total a b
+
+theorem lexAtoms_trans : ∀ a b c : List Atom, lexAtoms a b = true → lexAtoms b c = true → lexAtoms a c = true
+  | [], _, _ => by simp [lexAtoms]
+  | _ :: _, [], _ => by simp [lexAtoms]
+  | _ :: _, _ :: _, [] => by simp [lexAtoms]
+  | a :: as, b :: bs, c :: cs => by
+    by_cases h1 : a = b
+    · subst h1
+      by_cases h2 : a = c
+      · subst h2
+        simp only [lexAtoms, if_true]
+        exact lexAtoms_trans as bs cs
+      · simp only [lexAtoms, h2, if_true, if_false]
+        intro _ h; exact h
+    · by_cases h2 : b = c
+      · subst h2
+        simp only [lexAtoms, h1, if_true, if_false]
+        intro h _; exact h
+      · by_cases h3 : a = c
+        · subst h3
+          simp only [lexAtoms, h1, h2, if_false]
+          intro hab hba
+          exact absurd (Atom.le_antisymm a b hab hba) h1
+        · simp only [lexAtoms, h1, h2, h3, if_false]
+          exact Atom.le_trans a b c
+
+theorem lexAtoms_antisymm : ∀ a b : List Atom, lexAtoms a b = true → lexAtoms b a = true → a = b
+  | [], [] => by simp
+  | [], _ :: _ => by simp [lexAtoms]
+  | _ :: _, [] => by simp [lexAtoms]
+  | a :: as, b :: bs => by
+    by_cases h : a = b
+    · subst h
+      simp only [lexAtoms, if_true]
+      intro h1 h2
+      rw [lexAtoms_antisymm as bs h1 h2]
+    · have h' : ¬ b = a := fun e => h e.symm
+      simp only [lexAtoms, h, h', if_false]
+      intro h1 h2
+      exact absurd (Atom.le_antisymm a b h1 h2) h
+
+theorem Key.le_total (a b : Key) : a.le b = true ∨ b.le a = true := by
+  cases a <;> cases b <;> simp only [Key.le, decide_eq_true_eq] <;> try simp
+  · omega
+  · exact lexLe_total _ _
+  · exact lexAtoms_total _ _
+
 theorem Key.le_trans (a b c : Key) : a.le b = true → b.le c = true → a.le c = true := by
   cases a <;> cases b <;> cases c <;> simp only [Key.le, decide_eq_true_eq] <;> try simp
   · omega
   · exact lexLe_trans _ _ _
+  · exact lexAtoms_trans _ _ _
 
 theorem Key.le_antisymm (a b : Key) : a.le b = true → b.le a = true → a = b := by
   cases a <;> cases b <;> simp only [Key.le, decide_eq_true_eq] <;> try simp
   · omega
   · exact lexLe_antisymm _ _
+  · exact lexAtoms_antisymm _ _
 
 theorem Key.le_refl (a : Key) : a.le a = true := by
   rcases Key.le_total a a with h | h <;> exact h
